@@ -16,7 +16,9 @@
    bucket directory is [].  The multipart area .uploads/<id>/ is kept apart from
    the object namespace (assumption: no object key starts with ".uploads").
    Upload ids are the creation indices 0,1,2.. (the harness maps the UUIDs), and a
-   client always addresses an upload with the key it was created with. *)
+   client always addresses an upload with the key it was created with.
+   CompleteMultipartUpload carries the part numbers of the request body
+   (<Part><PartNumber>); the gateway never reads that body, the specification does. *)
 From Coq Require Import List NArith ZArith Bool String Arith.
 From SW Require Import model.HttpRange.
 Import ListNotations.
@@ -341,7 +343,7 @@ Inductive op :=
 | MpPut (u n : N) (b : bytes)
 | MpPutS (u n : N) (b : bytes) (tampered : bool)
 | MpCopy (u n : N) (src : path) (r : option (N * N))   (* x-amz-copy-source-range: bytes=a-b *)
-| MpComplete (u : N)
+| MpComplete (u : N) (ns : list N)   (* ns: the <PartNumber>s of the request body, in request order *)
 | MpAbort (u : N)
 | MpList (u : N).
 
@@ -421,6 +423,19 @@ Definition range_at_end (s : store) (k : path) (r : option (N * N)) : bool :=
   | _, _ => false
   end.
 
+(* 5: a part upload / part copy that the gateway accepts (n <= globalMaxPartID) although the part
+   number is outside the S3 range 1..10000: part 0 and parts 10001..100000 *)
+Definition valid_part (n : N) : bool := in_range 1 10000 n.
+Definition trig_part_range (n : N) : bool := negb (valid_part n).
+(* 6: CompleteMultipartUpload whose part list is not exactly the uploaded part numbers in ascending
+   order (a subset, a permutation, a number that was never uploaded, duplicates): the body is not read *)
+Fixpoint nums_eqb (a b : list N) : bool :=
+  match a, b with
+  | [], [] => true
+  | x :: a', y :: b' => (x =? y) && nums_eqb a' b'
+  | _, _ => false
+  end.
+
 Definition flag (k : N) (b : bool) : list N := if b then [k] else [].
 
 (* ---------- the step function ---------- *)
@@ -436,7 +451,8 @@ Definition put_part (c : cfg) (st : state) (u n : N) (b : bytes) : state * res *
       match u_dir up with
       | None => (st, RNoUpload, [])
       | Some d => if max_part_id <? n then (st, RErr, [])
-                  else (set_updir st u up (Some (dir_put (part_name n) (store_body c b) d)), ROk, [])
+                  else (set_updir st u up (Some (dir_put (part_name n) (store_body c b) d)), ROk,
+                        flag 5 (trig_part_range n))
       end
   end.
 
@@ -480,11 +496,11 @@ Definition step (c : cfg) (st : state) (o : op) : state * res * list N :=
                    | None => (st, RErr, [])                   (* ErrInvalidCopySource *)
                    | Some data =>
                        (set_updir st u up (Some (dir_put (part_name n) (store_body c data) d)), ROk,
-                        flag 2 (is_dir_at s src) ++ flag 3 (range_at_end s src r))
+                        flag 2 (is_dir_at s src) ++ flag 3 (range_at_end s src r) ++ flag 5 (trig_part_range n))
                    end
           end
       end
-  | MpComplete u =>
+  | MpComplete u ns =>
       match get_upload st u with
       | None => (st, RNoUpload, [])
       | Some up =>
@@ -494,7 +510,9 @@ Definition step (c : cfg) (st : state) (o : op) : state * res * list N :=
               match listed d with
               | [] => (st, RNoUpload, [])                      (* len(entries) == 0 *)
               | _ :: _ =>
-                  let fl := flag 0 (trig_inline d) ++ flag 2 (trig_write s (u_key up)) in
+                  let fl := flag 0 (trig_inline d) ++ flag 2 (trig_write s (u_key up)) ++
+                            flag 6 (negb (nums_eqb ns (map (fun e => part_number_of (fst e))
+                                                           (sort_by_number (listed d))))) in
                   let (s', ok) := create_entry s (u_key up) (File (completed_file d)) in
                   if ok then (set_updir {| st_store := s'; st_ups := st_ups st |} u up None, ROk, fl)
                   else (st, RErr, fl)
@@ -564,36 +582,57 @@ Definition sinit : sstate := {| ss_objs := []; ss_ups := [] |}.
 
 Inductive expect :=
 | ENone                        (* nothing to judge *)
+| EOk                          (* the write must be acknowledged (2xx) *)
+| EFail                        (* the request must be refused (no 2xx) *)
 | EData (b : bytes)
 | ENotFound
 | EParts (l : list (N * N)).
 
-Definition valid_part (n : N) : bool := in_range 1 10000 n.
+(* the parts a CompleteMultipartUpload body selects *)
+Fixpoint pget (n : N) (l : list (N * bytes)) : option bytes :=
+  match l with
+  | [] => None
+  | (m, x) :: r => if m =? n then Some x else pget n r
+  end.
+Fixpoint pick (ns : list N) (ps : list (N * bytes)) : option (list bytes) :=
+  match ns with
+  | [] => Some []
+  | n :: r => match pget n ps, pick r ps with
+              | Some b, Some bs => Some (b :: bs)
+              | _, _ => None                                  (* InvalidPart *)
+              end
+  end.
+Fixpoint strict_asc (l : list N) : bool :=
+  match l with
+  | [] => true
+  | a :: r => match r with [] => true | b :: _ => (a <? b) && strict_asc r end   (* else InvalidPartOrder *)
+  end.
 
 Definition s_set_parts (ss : sstate) (u : N) (up : sup) (p : option (list (N * bytes))) : sstate :=
   {| ss_objs := ss_objs ss;
      ss_ups := set_nth (N.to_nat u) {| su_key := su_key up; su_parts := p |} (ss_ups ss) |}.
 
-Definition s_put_part (ss : sstate) (u n : N) (b : bytes) : sstate :=
+Definition s_put_part (ss : sstate) (u n : N) (b : bytes) : sstate * expect :=
   match nth_error (ss_ups ss) (N.to_nat u) with
-  | None => ss
+  | None => (ss, EFail)                                       (* NoSuchUpload *)
   | Some up => match su_parts up with
-               | None => ss
-               | Some ps => if valid_part n then s_set_parts ss u up (Some (parts_put n b ps)) else ss
+               | None => (ss, EFail)
+               | Some ps => if valid_part n then (s_set_parts ss u up (Some (parts_put n b ps)), EOk)
+                            else (ss, EFail)                  (* InvalidArgument *)
                end
   end.
 
 Definition sstep (ss : sstate) (o : op) : sstate * expect :=
   let objs := ss_objs ss in
   match o with
-  | Put k b => ({| ss_objs := sput objs k b; ss_ups := ss_ups ss |}, ENone)
+  | Put k b => ({| ss_objs := sput objs k b; ss_ups := ss_ups ss |}, EOk)
   | PutS k b tampered =>
-      if tampered then (ss, ENone) else ({| ss_objs := sput objs k b; ss_ups := ss_ups ss |}, ENone)
+      if tampered then (ss, EFail) else ({| ss_objs := sput objs k b; ss_ups := ss_ups ss |}, EOk)
   | Copy src dst =>
       if path_eqb src dst then (ss, ENone)
       else match sfind objs src with
-           | Some b => ({| ss_objs := sput objs dst b; ss_ups := ss_ups ss |}, ENone)
-           | None => (ss, ENone)
+           | Some b => ({| ss_objs := sput objs dst b; ss_ups := ss_ups ss |}, EOk)
+           | None => (ss, EFail)
            end
   | Get k r =>
       match sfind objs k with
@@ -607,38 +646,45 @@ Definition sstep (ss : sstate) (o : op) : sstate * expect :=
                        end
           end
       end
-  | Del k => ({| ss_objs := sremove objs k; ss_ups := ss_ups ss |}, ENone)
-  | BatchDel ks => ({| ss_objs := fold_left sremove ks objs; ss_ups := ss_ups ss |}, ENone)
-  | MpCreate k => ({| ss_objs := objs; ss_ups := ss_ups ss ++ [{| su_key := k; su_parts := Some [] |}] |}, ENone)
-  | MpPut u n b => (s_put_part ss u n b, ENone)
-  | MpPutS u n b tampered => if tampered then (ss, ENone) else (s_put_part ss u n b, ENone)
+  | Del k => ({| ss_objs := sremove objs k; ss_ups := ss_ups ss |}, EOk)
+  | BatchDel ks => ({| ss_objs := fold_left sremove ks objs; ss_ups := ss_ups ss |}, EOk)
+  | MpCreate k => ({| ss_objs := objs; ss_ups := ss_ups ss ++ [{| su_key := k; su_parts := Some [] |}] |}, EOk)
+  | MpPut u n b => s_put_part ss u n b
+  | MpPutS u n b tampered => if tampered then (ss, EFail) else s_put_part ss u n b
   | MpCopy u n src r =>
       match sfind objs src with
-      | None => (ss, ENone)
+      | None => (ss, EFail)
       | Some d =>
           match r with
-          | None => (s_put_part ss u n d, ENone)
+          | None => s_put_part ss u n d
           | Some (a, b) => match ref_spec (RClosed a b) (Z.of_N (blen d)) with
-                           | Some (o, l) => (s_put_part ss u n (slice d (Z.to_N o) (Z.to_N l)), ENone)
-                           | None => (ss, ENone)
+                           | Some (o, l) => s_put_part ss u n (slice d (Z.to_N o) (Z.to_N l))
+                           | None => (ss, EFail)                  (* InvalidRange *)
                            end
           end
       end
-  | MpComplete u =>
+  | MpComplete u ns =>
       match nth_error (ss_ups ss) (N.to_nat u) with
-      | None => (ss, ENone)
+      | None => (ss, EFail)
       | Some up =>
           match su_parts up with
-          | None => (ss, ENone)
-          | Some [] => (ss, ENone)
-          | Some ps => (s_set_parts {| ss_objs := sput objs (su_key up) (List.concat (map snd ps)); ss_ups := ss_ups ss |}
-                                    u up None, ENone)
+          | None => (ss, EFail)
+          | Some [] => (ss, EFail)
+          | Some ps =>
+              (* the object is the concatenation of the parts the request lists, which must be
+                 uploaded parts in ascending order; parts not listed are discarded *)
+              match ns, strict_asc ns, pick ns ps with
+              | _ :: _, true, Some bs =>
+                  (s_set_parts {| ss_objs := sput objs (su_key up) (List.concat bs); ss_ups := ss_ups ss |}
+                               u up None, EOk)
+              | _, _, _ => (ss, EFail)
+              end
           end
       end
   | MpAbort u =>
       match nth_error (ss_ups ss) (N.to_nat u) with
       | None => (ss, ENone)
-      | Some up => (s_set_parts ss u up None, ENone)
+      | Some up => (s_set_parts ss u up None, match su_parts up with Some _ => EOk | None => ENone end)
       end
   | MpList u =>
       match nth_error (ss_ups ss) (N.to_nat u) with
@@ -682,6 +728,8 @@ Definition res_eqb (a b : res) : bool :=
 Definition meets (e : expect) (r : res) : bool :=
   match e, r with
   | ENone, _ => true
+  | EOk, ROk => true
+  | EFail, RErr | EFail, RNoUpload | EFail, RNotFound | EFail, RRange => true
   | EData d, RData x => bytes_eqb d x
   | ENotFound, RNotFound => true
   | EParts l, RParts x => pairs_eqb l x
